@@ -184,6 +184,7 @@ type storeSession struct {
 	ff     *faultFile
 	stream *faultStream
 	prev   []byte
+	own    *os.File // kind 5: the caller-owned file handed to blockstore.OpenReadWriteFile (stays open)
 
 	finalizeAt []int // number of intercepted calls when each blockstore finalize operation started
 	fsizeLimit int64 // > 0: RLIMIT_FSIZE during the next blockstore finalize operation
@@ -204,6 +205,10 @@ func (s *storeSession) closeHandles() {
 	if s.bs != nil {
 		s.bs.Discard()
 		s.bs = nil
+	}
+	if s.own != nil {
+		s.own.Close()
+		s.own = nil
 	}
 	if s.ff != nil {
 		if !s.ff.borrowed {
@@ -425,6 +430,16 @@ func runStoreImplX(work string, kind uint64, o wOpts, roots []cid.Cid, faults []
 		}
 		s.ff = &faultFile{f: f, faults: faults}
 		s.wc, openErr = storage.NewWritable(noTruncFile{s.ff}, roots, o.v2()...)
+	case 5:
+		// blockstore.OpenReadWriteFile: the CALLER owns the *os.File; Close/Discard leave it open (it is
+		// closed when the session ends).  From here on the session is driven like kind 0.
+		f, err := os.OpenFile(s.path, os.O_RDWR|os.O_CREATE, 0o666)
+		if err != nil {
+			panic(err)
+		}
+		s.own = f
+		s.bs, openErr = blockstore.OpenReadWriteFile(f, roots, o.v2()...)
+		kind = 0
 	}
 	if openErr != nil {
 		return VL{outErr(openErr), VL{}, VB(nil)}
